@@ -114,7 +114,7 @@ def run(ctx):
                            "walks", simulate=(150 if q else 1500, 16), workers=4)
     scripts = drop_prefixes(scripts)
     ctx.cov["scripts_after_prefix_removal"] = len(scripts)
-    scripts = cap(ctx, scripts, 9000 if q else 36000, "vector histories")
+    scripts = cap(ctx, scripts, 9000 if q else 100000, "vector histories")
     ctx.assume("2-D integer vectors with |coordinate| <= 3, no zero vector (cosine distance undefined); ties in exact arithmetic may be "
                "returned in any order (the implementation ranks in f32)",
                "every vector has the index's dimension; searches are issued only on declared indexes; k in {1,2,3}",
